@@ -24,9 +24,24 @@ Definition w_namespace := [OCSet k11 k22 va; OStart; ODel k11; OCommit; OCGet k1
 Definition w_child_kill := [OCSet k11 k22 va; OStart; OKill k11; OCGet k11 k22; OCSet k11 k1122 va; OCommit; OCGet k11 k22].
 (* cs:11:22:a1 ccp:11:22 : direct prefix clear leaves an empty child with a stale root *)
 Definition w_child_direct := [OCSet k11 k22 va; OCClearPrefix k11 k22].
+(* cs:11:22:a1 p:11:01 cp:- g:11 cg:11:22 : clearing the empty prefix (a part of ":child_storage:")
+   removes the child trie roots kept in the main trie; Substrate refuses the call (fix C08-7) *)
+Definition w_clear_roots := [OCSet k11 k22 va; OPut k11 v1; OClearPrefix []; OGet k11; OCGet k11 k22].
+(* cs:11:22:a1 p:11:01 S cl:-:5 g:11 cg:11:22 C g:11 cg:11:22 : inside a transaction the child trie
+   is still readable and disappears when the outermost transaction is committed *)
+Definition w_clear_roots_tx := [OCSet k11 k22 va; OPut k11 v1; OStart; OClearPrefixLimit [] 5; OGet k11;
+                                OCGet k11 k22; OCommit; OGet k11; OCGet k11 k22].
 (* findings that remain after the fixes *)
 Definition w_tx_limit := [OPut k11 v3; OStart; OPut k112244 v3; OClearPrefixLimit k11 1; OGet k112244; OCommit].
 Definition w_tx_limit0 := [OStart; OPut k11 v2; OClearPrefixLimit k11 0; OGet k11; OCommit].
+(* p:11:01 p:1122:02 p:112233:03 S p:11:03 p:1122:03 cl:11:2 g:112233 C : committed keys overwritten
+   in the transaction do not count against the limit (Substrate visits 11 and 1122 and stops) *)
+Definition w_tx_limit_over := [OPut k11 v1; OPut k1122 v2; OPut k112233 v3; OStart; OPut k11 v3; OPut k1122 v3;
+                               OClearPrefixLimit k11 2; OGet k112233; OCommit].
+(* p:11:01 p:1122:02 S d:11 cl:11:1 g:1122 C : a committed key whose deletion is pending counts against
+   the limit, in the code as in Substrate: no finding, the guard is silent *)
+Definition w_tx_limit_deleted := [OPut k11 v1; OPut k1122 v2; OStart; ODel k11; OClearPrefixLimit k11 1;
+                                  OGet k1122; OCommit; OGet k1122].
 Definition w_direct_order := [OPut k1122 v2; OPut k112233 v3; OClearPrefixLimit k1122 1; OGet k1122].
 
 Ltac refute := intros [H1 H2]; vm_compute in H1, H2;
@@ -45,10 +60,22 @@ Proof. refute. Qed.
 Lemma pinned_child_direct : ~ agrees (run cfg_pinned w_child_direct ts_init) (srun w_child_direct ss_init) w_child_direct.
 Proof. refute. Qed.
 
+Lemma pre7_clear_roots :
+  ~ agrees (run cfg_pre7 w_clear_roots ts_init) (srun w_clear_roots ss_init) w_clear_roots /\
+  ~ agrees (run cfg_pre7 w_clear_roots_tx ts_init) (srun w_clear_roots_tx ss_init) w_clear_roots_tx.
+Proof. split; refute. Qed.
+(* what the code before C08-7 answered (observed on the Go code, corpus/C08/main.txt) *)
+Lemma pre7_clear_roots_obs :
+  fst (run cfg_pre7 w_clear_roots ts_init) = [RUnit; RUnit; RUnit; RVal None; RErr] /\
+  fst (run cfg_pre7 w_clear_roots_tx ts_init) =
+    [RUnit; RUnit; RUnit; RCount 2 true; RVal None; RVal (Some va); RUnit; RVal None; RErr].
+Proof. split; reflexivity. Qed.
+
 (* the repaired code agrees on all of them *)
 Lemma fixed_agrees_witnesses :
   Forall (fun w => agrees (run cfg_fixed w ts_init) (srun w ss_init) w)
-         [w_prefix_key; w_child_reset; w_child_keys; w_namespace; w_child_kill; w_child_direct].
+         [w_prefix_key; w_child_reset; w_child_keys; w_namespace; w_child_kill; w_child_direct;
+          w_clear_roots; w_clear_roots_tx].
 Proof.
   repeat constructor; vm_compute; try reflexivity; intros _; repeat split; reflexivity.
 Qed.
@@ -59,6 +86,17 @@ Lemma fixed_tx_limit :
   ~ agrees (run cfg_fixed w_tx_limit0 ts_init) (srun w_tx_limit0 ss_init) w_tx_limit0 /\
   guard_free cfg_fixed w_tx_limit = false /\ guard_free cfg_fixed w_tx_limit0 = false.
 Proof. split; [refute|]. split; [refute|]. split; reflexivity. Qed.
+Lemma fixed_tx_limit_over :
+  ~ agrees (run cfg_fixed w_tx_limit_over ts_init) (srun w_tx_limit_over ss_init) w_tx_limit_over /\
+  guard_free cfg_fixed w_tx_limit_over = false.
+Proof. split; [refute | reflexivity]. Qed.
+Lemma fixed_tx_limit_deleted :
+  guard_free cfg_fixed w_tx_limit_deleted = true /\
+  fst (run cfg_fixed w_tx_limit_deleted ts_init) =
+    [RUnit; RUnit; RUnit; RUnit; RCount 1 false; RVal (Some v2); RUnit; RVal (Some v2)] /\
+  fst (srun w_tx_limit_deleted ss_init) =
+    [RUnit; RUnit; RUnit; RUnit; RCount 1 false; RVal (Some v2); RUnit; RVal (Some v2)].
+Proof. vm_compute. repeat split; reflexivity. Qed.
 Lemma fixed_direct_order :
   ~ agrees (run cfg_fixed w_direct_order ts_init) (srun w_direct_order ss_init) w_direct_order /\
   guard_free cfg_fixed w_direct_order = false.
